@@ -137,6 +137,7 @@ type tierPlan struct {
 	ColdRace    int // race build (first-use races show only here; a cold process costs ~50 ms)
 	ColdCount   int // runs per cold process
 	MinimiseS   float64
+	Probes      int     // operations sampled per plain worker for re-evaluation in fresh processes
 	GiantS      float64 // giant-input phase, plain build
 	GiantRaceS  float64 // ... race build (0: skipped)
 	WorkerGrace time.Duration
@@ -154,13 +155,13 @@ func planFor(o *options) tierPlan {
 		if b == 0 {
 			b = 1500
 		}
-		return tierPlan{DetSeeds: 40, PlainS: b * 0.45, RaceS: b * 0.45, ColdProcs: 400, ColdRace: 2400, ColdCount: 4, MinimiseS: 180, GiantS: b * 0.05, GiantRaceS: b * 0.04, WorkerGrace: 5 * time.Minute}
+		return tierPlan{DetSeeds: 40, PlainS: b * 0.45, RaceS: b * 0.45, ColdProcs: 400, ColdRace: 2400, ColdCount: 4, MinimiseS: 180, Probes: 400, GiantS: b * 0.05, GiantRaceS: b * 0.04, WorkerGrace: 5 * time.Minute}
 	}
 	b := o.BudgetS
 	if b == 0 {
 		b = 34
 	}
-	return tierPlan{DetSeeds: 10, PlainS: b * 0.4, RaceS: b * 0.6, ColdProcs: 128, ColdRace: 512, ColdCount: 3, MinimiseS: 25, GiantS: 4, WorkerGrace: 2 * time.Minute}
+	return tierPlan{DetSeeds: 10, PlainS: b * 0.4, RaceS: b * 0.6, ColdProcs: 128, ColdRace: 512, ColdCount: 3, MinimiseS: 25, Probes: 100, GiantS: 4, WorkerGrace: 2 * time.Minute}
 }
 
 type finding struct {
@@ -174,6 +175,7 @@ type finding struct {
 	Phase string
 	Cold  bool // the run was the first of its process and simulated before any other library use
 	Hist  *history
+	Probe *probe // O4b finding: the operation
 }
 
 func explore(o *options, p *prepared, t0 time.Time, writeEvidence bool) int {
@@ -268,12 +270,22 @@ func explore(o *options, p *prepared, t0 time.Time, writeEvidence bool) int {
 		specs = nil
 		for w := 0; w < o.Workers; w++ {
 			specs = append(specs, workerSpec{Bin: p.BinPlain, Args: []string{"-base", u(o.Seed), "-from", u(idxPlain + uint64(w)), "-stride", strconv.Itoa(o.Workers),
-				"-budget-ms", strconv.Itoa(int(plan.PlainS * 1000)), "-samples", "1", "-giant-every", u(giantEveryFor(o)), "-sigs", filepath.Join(p.Scratch, fmt.Sprintf("sigs-plain-%d.bin", w))},
+				"-budget-ms", strconv.Itoa(int(plan.PlainS * 1000)), "-samples", "1", "-giant-every", u(giantEveryFor(o)), "-probes", strconv.Itoa(plan.Probes), "-sigs", filepath.Join(p.Scratch, fmt.Sprintf("sigs-plain-%d.bin", w))},
 				Timeout: time.Duration(plan.PlainS*float64(time.Second)) + plan.WorkerGrace})
 		}
 		tp := time.Now()
-		collect("plain", runWorkers(specs, o.Workers))
+		plainRes := runWorkers(specs, o.Workers)
+		collect("plain", plainRes)
 		fmt.Printf("c14: plain build: %d runs so far (%.1fs)\n", ev.Runs, time.Since(tp).Seconds())
+		if len(findings) == 0 {
+			tq := time.Now()
+			n, bad := freshProcessProbes(o, p, plainRes)
+			ev.Probed = n
+			for _, b := range bad {
+				findings = append(findings, b)
+			}
+			fmt.Printf("c14: fresh-process probes: %d operations re-evaluated each in a brand-new process, %d differ (%.1fs)\n", n, len(bad), time.Since(tq).Seconds())
+		}
 	}
 	if len(findings) == 0 {
 		specs = nil
@@ -346,6 +358,62 @@ func explore(o *options, p *prepared, t0 time.Time, writeEvidence bool) int {
 	fmt.Printf("c14: runs=%d steps=%d switches=%d distinct_nontrivial_schedules=%d violations=%d wall=%.1fs exit=%d\n",
 		ev.Runs, ev.Steps, ev.Switches, ev.DistinctSigs, len(fresh), ev.WallS, code)
 	return code
+}
+
+// freshProcessProbes re-evaluates the operations the plain workers sampled, each in a
+// brand-new process that does nothing else (oracle O4b, see overlay/zsim/run.go).
+func freshProcessProbes(o *options, p *prepared, rs []*workerResult) (int, []finding) {
+	seen := map[string]bool{}
+	owner := map[string]*history{} // which worker (and how many runs of it) produced the answer
+	var ps []probe
+	for _, r := range rs {
+		if r.Sum == nil {
+			continue
+		}
+		h := historyOf(r.Spec, r.Sum.Last)
+		if h != nil {
+			h.Count++ // include the last run itself
+		}
+		for _, pr := range r.Sum.FreshProbes {
+			k := string(pr.Op)
+			if !seen[k] {
+				seen[k] = true
+				ps = append(ps, pr)
+				owner[k] = h
+			}
+		}
+	}
+	var specs []workerSpec
+	var files []string
+	for i, pr := range ps {
+		f := filepath.Join(p.Scratch, fmt.Sprintf("probe-%d.json", i))
+		b, _ := json.Marshal(pr)
+		if os.WriteFile(f, b, 0o644) != nil {
+			continue
+		}
+		files = append(files, f)
+		specs = append(specs, workerSpec{Bin: p.BinPlain, Args: []string{"-probe", f}, Timeout: 2 * time.Minute})
+	}
+	out := runWorkers(specs, o.Workers)
+	var bad []finding
+	for i, r := range out {
+		os.Remove(files[i])
+		if r.ProbeRes == nil || r.Err != nil {
+			continue // a probe that could not be evaluated proves nothing
+		}
+		if *r.ProbeRes != ps[i].Res {
+			var op struct {
+				Kind string `json:"kind"`
+			}
+			json.Unmarshal(ps[i].Op, &op)
+			pr := ps[i]
+			bad = append(bad, finding{Sig: "O4/" + op.Kind, Build: "plain", Phase: "probes", Probe: &pr, Run: 9_000_000_000 + uint64(i), Hist: owner[string(ps[i].Op)],
+				Viol: &violation{Oracle: "O4", Task: -1, Op: -1, Kind: op.Kind,
+					What: "the same call gives one result in a worker process that had made other calls before and another in a brand-new process: the result depends on process history. operation: " + string(ps[i].Op),
+					Want: *r.ProbeRes, Got: ps[i].Res}})
+		}
+	}
+	return len(ps), bad
 }
 
 // historyOf reconstructs, from a worker's command line, which runs it executed before run.
